@@ -1,7 +1,7 @@
 """Generated class definitions (as source text, compiled and executed) for C07 / C20.
 
 A spec is (storage, levels, ser, ign):
-  storage in {'dict', 'slots', 'slots-on-dict', 'dict-on-slots'}, optionally followed by '@' and a prefix for
+  storage in {'dict', 'slots', 'slots-on-dict', 'dict-on-slots', 'mix:<S|P per level>'}, optionally followed by '@' and a prefix for
           the class names ('slots@_' names its classes _L0, _L1, ...: name mangling strips leading underscores)
   levels  tuple of field-kind tuples, one per class of the inheritance chain (base first),
           kinds 'a' (public), 'b' (protected, '_b'), 'c' (name-mangled, '__c')
@@ -48,7 +48,11 @@ def source(spec, modname):
     for i, kinds in enumerate(levels):
         cname = prefix + "L%d" % i
         base = prefix + "L%d" % (i - 1) if i else "object"
-        slotted = {"dict": False, "slots": True, "slots-on-dict": i == n - 1, "dict-on-slots": i < n - 1 and n > 1}[storage]
+        if storage.startswith("mix:"):
+            # one letter per level, base first: S = the class declares __slots__, P = it does not
+            slotted = storage[4:][i] == "S"
+        else:
+            slotted = {"dict": False, "slots": True, "slots-on-dict": i == n - 1, "dict-on-slots": i < n - 1 and n > 1}[storage]
         if storage == "dict-on-slots" and n == 1:
             slotted = False
         names = [KIND_NAME[k] % i for k in kinds]
